@@ -200,23 +200,29 @@ func discoverCacheRoles(c *Ctx) *cacheRoles {
 		if cl == "" {
 			continue
 		}
-		for _, g := range reachableSamePkg(f, 2) {
+		// which journals can this operation write?  Constant boolean arguments are followed, so a
+		// recorder shared by two operations and steered by a flag (record(dest, recursive)) is split
+		for _, ri := range reachWithBools(f, 3) {
+			g := ri.fn
 			// do not follow delegation into other interface methods of the cache
 			if g != f && g.Signature.Recv() != nil && opClass(g.Name()) != "" {
 				continue
 			}
-			for j, recs := range r.recorder {
-				for _, rec := range recs {
-					if rec != g {
-						continue
-					}
-					if old, has := r.class[j]; has && old != cl {
-						r.problems = append(r.problems, fmt.Sprintf("journal %s is written by operations of different kinds (%s and %s: %s)", j, old, cl, mn))
-					} else {
-						r.class[j] = cl
-					}
+			eachInstr(g, func(_ *ssa.BasicBlock, _ int, in ssa.Instruction) {
+				mu, ok := in.(*ssa.MapUpdate)
+				if !ok {
+					return
 				}
-			}
+				j, base := fieldLoadName(mu.Map)
+				if base == nil || freshBase(base) || len(r.recorder[j]) == 0 || !feasibleUnder(g, mu, ri.env) {
+					return
+				}
+				if old, has := r.class[j]; has && old != cl {
+					r.problems = append(r.problems, fmt.Sprintf("journal %s is written by operations of different kinds (%s and %s: %s)", j, old, cl, mn))
+				} else {
+					r.class[j] = cl
+				}
+			})
 		}
 	}
 	return r
@@ -234,11 +240,44 @@ func (r *cacheRoles) isRecorderCall(in ssa.Instruction, j string) bool {
 		return false
 	}
 	for _, rec := range r.recorder[j] {
-		if rec == ci.Static {
+		if rec != ci.Static {
+			continue
+		}
+		// the recorder may serve several journals, steered by constant boolean arguments
+		env := map[*ssa.Parameter]bool{}
+		for i, a := range ci.Common.Args {
+			if b, isC := constBool(a); isC && i < len(rec.Params) {
+				env[rec.Params[i]] = b
+			}
+		}
+		hit := false
+		eachInstr(rec, func(_ *ssa.BasicBlock, _ int, in2 ssa.Instruction) {
+			if mu, ok := in2.(*ssa.MapUpdate); ok {
+				if n, _ := fieldLoadName(mu.Map); n == j && feasibleUnder(rec, mu, env) {
+					hit = true
+				}
+			}
+		})
+		if hit {
 			return true
 		}
 	}
 	return false
+}
+
+// feasibleUnder: instruction in (of g) is not on a branch that the constant
+// values env of g's boolean parameters rule out.
+func feasibleUnder(g *ssa.Function, in ssa.Instruction, env map[*ssa.Parameter]bool) bool {
+	if len(env) == 0 {
+		return true
+	}
+	facts := factsFor(g)
+	for p, v := range env {
+		if p.Parent() == g && facts.KnownBool(in.Block(), p, !v) {
+			return false
+		}
+	}
+	return true
 }
 
 func (r *cacheRoles) journalOfClass(cl string) string {
